@@ -121,6 +121,14 @@ CHECKS = {
         "Return value of a used key that cannot act, exact tab width and the preferred column after a click are not judged. Ellipsis wrap, highlight and custom layouts are not exercised.",
         "DESIGN.md §3 C10, §8",
     ),
+    "C13": (
+        "exploration",
+        "offline contract checker over recorded histories: generated programs of alarm / watch / idle / remove calls (before run() and from inside callbacks) run on each real event loop with every API call and callback entry recorded at the client boundary; the select loop additionally under a virtual clock and fake selector with enumerated readiness schedules, ZMQ under a fake poller reproducing pyzmq's timeout truncation",
+        "Directed, random and enumerated programs (all schedules of <=5 events complete, 6-7 events 92%) on select / asyncio / tornado / twisted / trio / zmq; 14 clauses (alarm once / not early / order / remove / remove again, watch readable / after remove / served, "
+        "idle before quiescence / after remove, ExitMainLoop silent, exception re-raised as the same object, not re-raised by a second run(), no foreign exception, no API call raises). Real-clock violations must reproduce in a re-execution.",
+        "'Quiescent' = the loop entered its OS wait primitive asking for >= 10 ms (recorded by a wrapper on selector.select / zmq poll / reactor.doIteration / a trio Instrument); wait durations are never used for verdicts. Ordering and idle rules are judged within one run() segment. glib is not installed.",
+        "DESIGN.md §3 C13, §8",
+    ),
 }
 
 NA_REASON = "check not built yet in this round (see DESIGN.md §6 build order); no claim is made"
